@@ -10,6 +10,7 @@ R_a3(ak) R_a2(aj) R_a1(ai), rotating 'r a1 a2 a3' is R_a1(ai) R_a2(aj) R_a3(ak).
 from __future__ import annotations
 
 import ast
+import re
 import itertools
 
 import numpy as np
@@ -623,6 +624,21 @@ def check(run):
     if not ok and not any(v["rule"] == "T13" for v in run.violations):
         run.instance("T13", f_ir.where, "is_rigid: tests not in a recognised max-norm form - NOT decided", True, nontrivial=False)
         run.assume(f"is_rigid closeness tests have an unrecognised form {tests}")
+
+    # -------------------------------------------------------------------- T14 unit_vector divides by the norm unconditionally
+    run.rule("T14", "unit_vector normalises every non-zero vector: the division by the norm is not skipped under a magnitude threshold (a tiny axis is still an axis)")
+    f_uv = ix.func("trimesh.transformations:unit_vector")
+    puv = Prov(ix, f_uv)
+    divs = [st for st in ast.walk(f_uv.node) if isinstance(st, ast.AugAssign) and isinstance(st.op, ast.Div) and ast.unparse(st.target) == "data"]
+    if not divs:
+        raise AnalysisError("anchor vanished: `data /= ...` in unit_vector")
+    for st in divs:
+        g = [x for x in puv.guards(st) if "EPS" in x or re.search(r"[<>]=? *[0-9.e-]+", x) and not re.search(r"[<>!=]=? *0(\.0)?$", x)]
+        ok = not g
+        run.instance("T14", f_uv.where, f"`{ast.unparse(st)[:40]}` (line {st.lineno}) guarded by {puv.guards(st)}", ok)
+        if not ok:
+            run.violation("T14", f_uv.where, f"unit_vector skips the normalisation under `{g[0][:70]}`: a non-zero vector below that magnitude is returned as it is, so "
+                                             f"rotation_matrix(angle, tiny axis) is not orthonormal and disagrees with the quaternion route", key=key_of("C19-T14", "threshold"))
 
     # -------------------------------------------------------------------- T8 result arrays are float by construction
     run.rule("T8", "no matrix builder stores into an array whose dtype is the caller's (a copy / view of a parameter without a float conversion): integer input would truncate")
